@@ -579,3 +579,10 @@ func VerifC17Unquote() {
 	}
 	verifrt.Reached("end")
 }
+
+// VerifC19JSON: callable number "idx" of the json module.
+func VerifC19JSON() {
+	_, f := ugo.VerifModuleCallable(Module, verifrt.Param("idx"))
+	verifrt.Assume(f != nil)
+	ugo.VerifCallTotal(f, verifrt.Param("nargs"), verifrt.Param("kinds"))
+}
